@@ -201,6 +201,35 @@ def check(ctx):
         diff = sorted('%s -> %s' % (' & '.join(('' if p else 'not ') + t for t, p in sorted(k)), sorted(v)) for k, v in table.items() if want.get(k) != v)
         ctx.violation('C04.R2', BER, f, Model.qual(f), 'end-of-data detection changed (definite: offset >= end_offset; indefinite: end-of-contents octets, consumed): %s' % '; '.join(diff)[:400], stmt='is_end_of_data')
 
+    # is_end_of_data consumes the end-of-contents octets when it reports the end of an indefinite form (it returns an advanced offset):
+    # once it has reported the end it must not be evaluated again on that value (typestate over the flag it returns)
+    from .. import typestate
+    eod = model.func(BER, 'is_end_of_data')
+    eps_ = sem.paths(eod, positional=True) or []
+    consumes = any(p_.outcome[0] == 'return' and isinstance(p_.outcome[3], ast.Tuple) and len(p_.outcome[3].elts) == 2 and isinstance(p_.outcome[3].elts[0], ast.Constant)
+                   and p_.outcome[3].elts[0].value is True and sem.ctext(p_.outcome[3].elts[1]) != 'ARG1' for p_ in eps_)
+    n_ts = 0
+    for rel_ in (BER, 'asn1tools/codecs/der.py'):
+        for g_ in [n_ for n_ in ast.walk(model.mod(rel_).tree) if isinstance(n_, ast.FunctionDef) and n_ is not eod]:
+            if not any(isinstance(c_, ast.Call) and sem.callee_name(c_) == eod.name for c_ in walk_no_nested(g_)):
+                continue
+            if not consumes:
+                ctx.instance('C04.R2', '%s: %s is idempotent, repeated evaluation is harmless' % (Model.qual(g_), eod.name), 'n/a', nontrivial=False, node=g_, file=rel_)
+                continue
+            ts = typestate.FlagTypestate(g_, eod.name)
+            if not ts.flags:
+                ctx.instance('C04.R2', '%s: end-of-data flag' % Model.qual(g_), 'undecided', 'the result of %s is not bound to a flag variable' % eod.name, nontrivial=False, node=g_, file=rel_)
+                continue
+            viol = ts.run()
+            n_ts += 1
+            ctx.instance('C04.R2', '%s: %s is not evaluated again once it reported the end (%d call sites, flag %s)' % (Model.qual(g_), eod.name, len(ts.calls), '/'.join(sorted(ts.flags))),
+                         'ok' if not viol else 'VIOLATION', node=g_, file=rel_)
+            for call_, fl_ in viol[:1]:
+                ctx.violation('C04.R2', rel_, call_, Model.qual(g_),
+                              '%s(...) can be evaluated again after it has already reported the end of the contents (%s may be True here): for the indefinite form the first report '
+                              'consumed the end-of-contents octets, so the second evaluation inspects the octets that follow the value and the decoder mis-parses or over-reads'
+                              % (eod.name, fl_), stmt='end-of-contents consumed twice')
+
     # ---- R3
     f = model.func(BER, 'Choice.get_member_tags')
     attrs = {n.attr for n in walk_no_nested(f) if isinstance(n, ast.Attribute)}
@@ -358,6 +387,15 @@ def check(ctx):
 
 
 MUTANTS = [
+    dict(name='end-of-data re-evaluated at the head of every member iteration', file=BER,
+         old="""                if out_of_data:
+                    undecoded_members.append(member)
+                    continue
+""", new="""                out_of_data, offset = is_end_of_data(data, offset, end_offset)
+                if out_of_data:
+                    undecoded_members.append(member)
+                    continue
+""", expect='C04.R2'),
     dict(name='ArrayType loses indefinite_allowed', file=BER, quick=True,
          old="""class ArrayType(StandardEncodeMixin, StandardDecodeMixin, Type):
     indefinite_allowed = True
